@@ -358,12 +358,37 @@ def state_of(obs):
             tuple(obs.get('indexes') or ()))
 
 
-def module_api(mod, quick, thorough):
-    """the standard run / replay / replay_finding of a history property module"""
+def replay_fixed(eng, mod):
+    """the witnesses of the findings repaired in the library (`fixed` entries of
+    known_findings.json that carry a history) go through the oracle and the correspondence like
+    any generated history: their label is no known label any more, so a recurrence of the defect
+    is a VIOLATION.  → number of witnesses replayed"""
+    n = 0
+    for e in common.load_known(mod.ID):
+        if e.get('status') != 'fixed' or not (e.get('witness') or {}).get('wire_history'):
+            continue
+        oids = wire.Oids()
+        history = wire.dec(e['witness']['wire_history'], oids)
+        py = run_history(history, oids, getattr(mod, 'server_version', '5.0.5'),
+                         getattr(mod, 'probe', None), getattr(mod, 'pre_probe', None))
+        out = wire.run_driver([hist.model_line(history, oids, getattr(mod, 'pre_v5', False))])
+        eng.judge(history, oids, py, model_steps(history, out[0]))
+        n += 1
+    return n
+
+
+def module_api(mod, quick, thorough, fixed=False):
+    """the standard run / replay / replay_finding of a history property module; with `fixed` the
+    witnesses of the repaired findings are run before the generated histories"""
     def run(ctx, proof, driver_ok):
         if not driver_ok:
             return {'explanation': 'model driver unavailable'}
-        return Engine(ctx, mod).run(ctx.n(quick, thorough))
+        eng = Engine(ctx, mod)
+        replayed = replay_fixed(eng, mod) if fixed else None
+        cov = eng.run(ctx.n(quick, thorough))
+        if replayed is not None:
+            cov['fixed_witnesses_replayed'] = replayed
+        return cov
 
     def replay(ctx, path):
         return Engine(ctx, mod).replay(path)
